@@ -272,7 +272,7 @@ def strip_tag(path):
     return b'', segs
 
 
-def pair(E, D, skip_prefix=0):
+def pair(E, D, skip_prefix=0, reach=None):
     """Generic Pair judgement.  ``skip_prefix``: number of leading constant
     bytes of the encoder output that the caller's dispatcher consumes (the
     type tag).  Returns list of (clause, ok (True/False/None), text)."""
@@ -296,11 +296,11 @@ def pair(E, D, skip_prefix=0):
             res.append(('tag', None, 'encoder output does not start with '
                         'the expected constant tag'))
             continue
-        res.extend(_pair_path(ep, segs, D))
+        res.extend(_pair_path(ep, segs, D, reach))
     return res
 
 
-def _pair_path(ep, segs, D):
+def _pair_path(ep, segs, D, reach=None):
     res = []
     # absolute offsets of encoder segments
     off = 0
@@ -350,9 +350,14 @@ def _pair_path(ep, segs, D):
             for r in match:
                 used.add(r.term)
                 acc = accepted_interval(ep, s)
+                if reach is not None and s.operand[0] == 'value' and \
+                        acc is not None:
+                    acc = T._iv_meet(acc, reach)
                 for c, okk, text in field_agreement(s, r, acc):
                     res.append((c, okk, text))
-                if s.operand[0] == 'len':
+                if s.operand[0] == 'len' and any(
+                        getattr(x, 'term', None) is s.operand[1]
+                        for _o, x in placed):
                     prefix_read = (s, r, o)
         for r in reads:
             if r.term not in used:
